@@ -154,6 +154,27 @@ package shaping
 // ordering clauses as computeBidiOrdering establishes, for the paragraph direction, whether or not a truncator run was
 // appended; and the run whose last glyph is trimmed is the visually last one in paragraph direction whenever the
 // ordering assigns that position to some run.
+// trimTrailingWhitespace: only the advance of the glyph that ends the run in paragraph direction may change, and it
+// becomes zero exactly when that glyph is white space (no ink on the run's axis); the run's advance is recomputed.
+//@ spec trailingIdx(o Output, dir di.Direction) int = ite(bool(dir.Progression()), 0, len(o.Glyphs)-1)
+//@ func Output.trimTrailingWhitespace C08
+//@   mode bv
+//@   ensures [whitespace-advance-zeroed] implies(len(finalVisualRun.Glyphs) > 0, ite(finalVisualRun.Direction.IsVertical(),
+//@     | finalVisualRun.Glyphs[trailingIdx(*finalVisualRun, paragraphDirection)].YAdvance == ite(old(finalVisualRun.Glyphs[trailingIdx(*finalVisualRun, paragraphDirection)].Height) == 0, 0, old(finalVisualRun.Glyphs[trailingIdx(*finalVisualRun, paragraphDirection)].YAdvance)),
+//@     | finalVisualRun.Glyphs[trailingIdx(*finalVisualRun, paragraphDirection)].XAdvance == ite(old(finalVisualRun.Glyphs[trailingIdx(*finalVisualRun, paragraphDirection)].Width) == 0, 0, old(finalVisualRun.Glyphs[trailingIdx(*finalVisualRun, paragraphDirection)].XAdvance))))
+//@   ensures [others-untouched] forall(k, 0, len(finalVisualRun.Glyphs), implies(k != trailingIdx(*finalVisualRun, paragraphDirection), finalVisualRun.Glyphs[k].XAdvance == old(finalVisualRun.Glyphs[k].XAdvance) && finalVisualRun.Glyphs[k].YAdvance == old(finalVisualRun.Glyphs[k].YAdvance)))
+//@   ensures [order-untouched] finalVisualRun.VisualIndex == old(finalVisualRun.VisualIndex) && finalVisualRun.Direction == old(finalVisualRun.Direction) && finalVisualRun.Runes.Offset == old(finalVisualRun.Runes.Offset) && finalVisualRun.Runes.Count == old(finalVisualRun.Runes.Count)
+//@   modifies finalVisualRun.Advance; finalVisualRun.Glyphs[:].XAdvance; finalVisualRun.Glyphs[:].YAdvance
+//
+// WrapParagraph's fast path (one run that fits): the line is post-processed like the lines WrapNextLine builds.
+//@ func LineWrapper.WrapParagraph C08 C04
+//@   mode bv
+//@   assert_at call singleRunParagraph#1 : [fast-path-line-is-ordered] firstRun.VisualIndex == 0
+//@   assert_at call singleRunParagraph#1 : [fast-path-line-is-trimmed] implies(!config.DisableTrailingWhitespaceTrim && len(firstRun.Glyphs) > 0,
+//@     | ite(firstRun.Direction.IsVertical(), implies(firstRun.Glyphs[trailingIdx(firstRun, config.Direction)].Height == 0, firstRun.Glyphs[trailingIdx(firstRun, config.Direction)].YAdvance == 0),
+//@     | implies(firstRun.Glyphs[trailingIdx(firstRun, config.Direction)].Width == 0, firstRun.Glyphs[trailingIdx(firstRun, config.Direction)].XAdvance == 0)))
+//@   modifies unspecified
+//
 //@ spec visuallyLast(dir di.Direction, n int) int = ite(bool(dir.Progression()), 0, n-1)
 //@ func LineWrapper.postProcessLine C08 C02
 //@   mode int
@@ -172,7 +193,7 @@ package shaping
 //@   modifies unspecified
 //@   loop 1 invariant [goal] 0 <= goalIdx && goalIdx < len(finalLine) && goalIdx == visuallyLast(l.config.Direction, len(finalLine))
 //@   loop 1 invariant [not-yet] forall(k, 0, rangeindex+1, int(finalLine[k].VisualIndex) != visuallyLast(l.config.Direction, len(finalLine)))
-//@   assert_at call RecomputeAdvance#1 : [trims-visually-last] int(finalLine[goalIdx].VisualIndex) == visuallyLast(l.config.Direction, len(finalLine)) || forall(k, 0, len(finalLine), int(finalLine[k].VisualIndex) != visuallyLast(l.config.Direction, len(finalLine)))
+//@   assert_at call trimTrailingWhitespace#1 : [trims-visually-last] int(finalLine[goalIdx].VisualIndex) == visuallyLast(l.config.Direction, len(finalLine)) || forall(k, 0, len(finalLine), int(finalLine[k].VisualIndex) != visuallyLast(l.config.Direction, len(finalLine)))
 //
 // ---------------------------------------------------------------------------------------------
 // Properties C02/C03: run cutting and break validity. mapping is the rune -> first-glyph-of-cluster map of run.
